@@ -22,6 +22,15 @@ REGRESS = os.path.join(REPLAYS, 'regress')
 EVIDENCE = os.path.join(VERIF, 'evidence')
 NSHARDS = 16
 SHRINK_CPU_S = 150  # CPU seconds Hypothesis may spend shrinking one failure
+# CPU seconds one check process may use in total (a quick check normally needs < 60, a thorough shard < 600): a tree
+# on which every run spins into its per-run CPU budget must end the check as inconclusive (exit 2), not occupy it for
+# hours. CPU time, not wall clock; a violation seen before the budget ran out is still reported.
+TOTAL_CPU_S = {'quick': float(os.environ.get('VK_TOTAL_CPU', 1200)), 'thorough': float(os.environ.get('VK_TOTAL_CPU', 5400))}
+_PROC_CPU0 = time.process_time()
+
+
+class BudgetExhausted(BaseException):
+    """derives from BaseException so that Hypothesis does not treat it as a failing example"""
 
 
 class Verdict:
@@ -76,10 +85,13 @@ class Stats:
         self.excluded = collections.Counter()
         self.last_failing = None
         self.expensive_failure = False
+        self.cpu_cap = TOTAL_CPU_S['thorough']
         self.first_failure_cpu = None
         self.extra = {}
 
     def record(self, check, case, verdict):
+        if time.process_time() - _PROC_CPU0 > self.cpu_cap:
+            raise BudgetExhausted()
         self.cases += 1
         self.runs += verdict.runs
         for c in verdict.classes:
@@ -208,6 +220,7 @@ def regression_replays(check):
 def run_shard(check, tier, seed, n_examples, out_path=None):
     """one process worth of search; returns (stats, failing or None)"""
     stats = Stats()
+    stats.cpu_cap = TOTAL_CPU_S[tier]
     failing = None
     try:
         stats.extra['regress_replays'] = regression_replays(check)
@@ -218,6 +231,12 @@ def run_shard(check, tier, seed, n_examples, out_path=None):
         check.extra(tier, seed, stats)
     except ViolationFound as v:
         failing = (v.case, v.violations)
+    except BudgetExhausted:
+        if stats.last_failing is None:
+            print(f'HARNESS-ERROR: {check.id} used up its CPU budget ({stats.cpu_cap:.0f} s) after {stats.cases} cases '
+                  f'without a verdict (inconclusive)', flush=True)
+            raise
+        failing = stats.last_failing  # a violation had been seen; the budget ran out while it was being shrunk
     except Exception as e:  # noqa: BLE001
         # Hypothesis reports a failure that does not reproduce identically while shrinking as Flaky*: fall back to
         # the last failing case seen and confirm it by plain re-execution; if it does not reproduce it is a
